@@ -401,7 +401,7 @@ Lemma matrix_stage_verdict_n o ord (d : doc) e3 ids3 e4 ids4 :
   forallb no_match (all_trees (e3, ids3)) = true ->
   any_tree (d17_here ord) (e3, ids3) = false ->
   matrix ord (shake_fuel e3) e3 = Ok e4 ->
-  map_ids (fun x => matrix ord (shake_fuel x) x) ids3 = Ok ids4 ->
+  map_ids (entries (fun x => matrix ord (shake_fuel x) x)) ids3 = Ok ids4 ->
   exists v v', solve_cond o ids3 e3 (pure_doc d) = Ok v /\ solve_cond o ids4 e4 (pure_doc d) = Ok v' /\
                teq v' v.
 Proof.
@@ -414,7 +414,8 @@ Proof.
   set (K := keys_of ids3).
   (* the bodies *)
   pose proof (C01_shake1.map_ids_F2 _ _ _ Hids4) as HF.
-  assert (Hbody : forall kv kv' : str * expr, In kv ids3 -> matrix ord (shake_fuel (snd kv)) (snd kv) = Ok (snd kv') ->
+  assert (Hbody : forall kv kv' : str * expr, In kv ids3 ->
+            entries (fun x => matrix ord (shake_fuel x) x) (snd kv) = Ok (snd kv') ->
             gm nokey (snd kv') = true /\
             forall d0 : doc, exists v v', solve_body o (snd kv) (pure_doc d0) = Ok v /\
                          solve_body o (snd kv') (pure_doc d0) = Ok v' /\ Rn bn v' v).
@@ -423,8 +424,24 @@ Proof.
     pose proof (C01.forallb_In _ _ _ Ci Hin) as C. pose proof (C01.forallb_In _ _ _ Mi Hin) as Mm.
     pose proof (C01.existsb_false_In _ _ _ A2 Hkv) as A.
     cbn beta in A. unfold gids in Gi. rewrite Forall_forall in Gi. pose proof (Gi kv Hkv) as G.
-    split; [exact (matrix_gm' ord nokey _ bn G (d18_sub_never ord bn _) _ _ Hm)|].
-    intros d0. exact (matrix_nested_rel o ord Hord bn _ _ _ d0 G C Mm A Hm). }
+    (* fix D15/D20: entry by entry *)
+    split; [exact (entries_matrix_gm ord _ _ bn (perm_len ord Hord) G (d18_sub_never ord bn _) Hm)|].
+    intros d0.
+    apply (C01_nested.entries_vals_rel o (pure_doc d0) bn (fun x => matrix ord (shake_fuel x) x)
+             (fun x => gb x = true /\ cmp_reads x = true /\ no_match x = true /\
+                       exists_sub (d17_here ord) bn x = false)
+             (fun _ => True) (snd kv) (snd kv')); [| | | |exact Hm].
+    - intros; exact I.
+    - destruct (snd kv) as [s0 l0| | | | | | | | | | | | |]; try exact I.
+      unfold gb in G. cbn [gk] in G. apply andb_prop in G. exact (proj1 G).
+    - intros x Hx. destruct (snd kv) as [s0 l0| | | | | | | | | | | | |]; cbn [C01_nested.entry_trees] in Hx;
+        try (destruct Hx as [<-|[]]; auto).
+      unfold gb in G. cbn [gk] in G. apply andb_prop in G. destruct G as [_ G].
+      cbn [cmp_reads no_match] in C, Mm.
+      split; [exact (C01.forallb_In _ _ _ G Hx)|]. split; [exact (C01.forallb_In _ _ _ C Hx)|].
+      split; [exact (C01.forallb_In _ _ _ Mm Hx)|exact (C01.exists_sub_member _ _ _ _ _ A Hx)].
+    - intros x x' (Gx & Cx & Mx & Ax) Hx. split; [exact I|].
+      exact (matrix_nested_rel o ord Hord bn _ _ _ d0 Gx Cx Mx Ax Hx). }
   assert (Gi4 : Forall (fun kv : str * expr => gm nokey (snd kv) = true) ids4).
   { apply Forall_forall. intros kv' Hkv'. destruct (Forall2_In_r _ _ _ kv' HF Hkv') as (kv & Hkv & _ & Hm).
     exact (proj1 (Hbody kv kv' Hkv Hm)). }
@@ -434,7 +451,7 @@ Proof.
   assert (Hok2 : forall (d0 : doc) e, gm K e = true -> C03.okr (Sd o ids4 (solve_body o) d0 e)).
   { intros d0 e Hg. apply (solve_cond_m o ids4 e (pure_doc d0)); [|exact Gi4 | apply C03.npd_pure].
     rewrite (gm_ext _ K); [exact Hg|]. intros i. unfold K, keys_of. apply has_key_fst. exact Hfst. }
-  assert (Hrel : C01_shake1.ids_rel (fun b b' => matrix ord (shake_fuel b) b = Ok b') ids3 ids4).
+  assert (Hrel : C01_shake1.ids_rel (fun b b' => entries (fun x => matrix ord (shake_fuel x) x) b = Ok b') ids3 ids4).
   { apply C01_shake1.ids_rel_F2. exact HF. }
   assert (Hlk : forall i b, lookup i ids3 = Some b -> exists kv, In kv ids3 /\ snd kv = b).
   { intros i b Hl. destruct (C03.lookup_in _ _ _ Hl) as [k Hk]. exists (k, b). split; [exact Hk | reflexivity]. }
